@@ -204,11 +204,12 @@ def random_subsets(rng, nd, nf, cover):
     return subsets
 
 
-def product_case(rng, cover=None):
+def product_case(rng, cover=None, small=False):
+    """small: sizes that the (interpreted, symbolic) Lean evaluator handles quickly"""
     names = Names(rng)
     nd = rng.choice([2, 2, 3, 3, 3, 4])
-    shape = distinct_shape(rng, nd, maxsize=100)
-    nf = rng.choice([2, 3, 3, 3, 4, 4, 5])
+    shape = distinct_shape(rng, nd, maxsize=24 if small else 100)
+    nf = rng.choice([2, 3, 3, 3, 4] if small else [2, 3, 3, 3, 4, 4, 5])
     if cover is None: cover = rng.random() < .8
     subsets = random_subsets(rng, nd, nf, cover)
     dtype = rng.choice([float, float, float, int])
@@ -268,12 +269,12 @@ def block_shape(rng, k, maxsize=64):
     return tuple([2, 3, 2, 3][:k])
 
 
-def inflate_case(rng):
+def inflate_case(rng, small=False):
     names = Names(rng)
     k = rng.choice([0, 1, 2, 2, 3, 3, 3, 4])
     keep = rng.choice([0, 0, 1, 1, 2])
-    dshape = block_shape(rng, k)
-    kshape = distinct_shape(rng, keep, maxsize=max(1, 160 // max(1, int(numpy.prod(dshape)))), lengths=[1, 2, 3, 4])
+    dshape = block_shape(rng, k, maxsize=24 if small else 64)
+    kshape = distinct_shape(rng, keep, maxsize=max(1, (36 if small else 160) // max(1, int(numpy.prod(dshape)))), lengths=[1, 2, 3, 4])
     full = tuple(kshape) + tuple(dshape)
     n = rng.choice([1, 2, 3, 5, 7, int(numpy.prod(dshape)), int(numpy.prod(dshape)) + 2])
     dtype = rng.choice([float, float, float, int])
@@ -313,16 +314,16 @@ def inflate_case(rng):
 # ---------------------------------------------------------------------------------------------------------------------
 # element loops of arbitrary rank
 
-def loop_case(rng):
+def loop_case(rng, small=False):
     names = Names(rng)
-    nel = rng.choice([1, 2, 3, 3, 4])
-    rank = rng.choice([1, 2, 3, 3, 3, 4])
+    nel = rng.choice([1, 2, 2, 3] if small else [1, 2, 3, 3, 4])
+    rank = rng.choice([1, 2, 3, 3] if small else [1, 2, 3, 3, 3, 4])
     idx = names.loop_index(nel)
     dtype = float
     ntab = rng.randint(1, min(rank, 3))
     tables = []
     for _ in range(ntab):
-        sizes = [rng.choice([0, 1, 2, 2, 3]) for _ in range(nel)]
+        sizes = [rng.choice([0, 1, 2, 2] if small else [0, 1, 2, 2, 3]) for _ in range(nel)]
         tables.append(sizes)
     kind = rng.choice(['sum', 'sum', 'sum', 'concat'])
     axes = []    # per axis: dict(kind, vec, dofs, n, len)
